@@ -346,7 +346,10 @@ class NCCHReader(TypeReaderCryptoBase):
 
         # this would fail if zero-key and a seed is used, but I have *no* idea how that would work
         # (if it's even possible)
-        if self.flags.fixed_crypto_key:
+        if self.flags.no_crypto or self._assume_decrypted:
+            # nothing is decrypted, so no keys are needed (and there may be none available)
+            pass
+        elif self.flags.fixed_crypto_key:
             self._crypto.set_normal_key(Keyslot.NCCHExtraKey, self._crypto.key_normal[self.extra_keyslot])
         else:
             # load the (seeded, if needed) key into the extra keyslot
